@@ -17,6 +17,11 @@ def enumerate_faults(project):
         for pi, _raw in enumerate(f["patterns"]):
             faults.append({"kind": "break", "path": f["path"], "pat": pi})
         faults.append({"kind": "remove", "path": f["path"]})
+    for f in project["files"]:
+        if len(f["patterns"]) >= 2 and not f.get("bare"):
+            # double fault: one pattern has no match at all while another configured pattern only matches inside the
+            # matches of an earlier one (a bare {version} pattern added to the file's entry)
+            faults.append({"kind": "break+cover", "path": f["path"], "pat": len(f["patterns"]) - 1})
     for sv in ("lower", "equal", "junk", "trailing"):
         faults.append({"kind": "reject", "sv": sv})
     faults.append({"kind": "nochange"})
@@ -28,7 +33,7 @@ def apply_fault(w, project, fault):
     if fault["kind"] == "remove":
         os.unlink(os.path.join(w.dir, fault["path"]))
         return []
-    if fault["kind"] == "break":
+    if fault["kind"] in ("break", "break+cover"):
         # every occurrence of this pattern loses its marker, so the pattern matches nowhere in the file
         for f in project["files"]:
             if f["path"] != fault["path"]:
@@ -65,10 +70,10 @@ class FaultPos:
     def gen(self, seed, index, tier):
         rng = runner.rng_for(seed, self.name, index)
         project = layouts.gen_project(rng, mode="plain", allow_mixed=True, vcs=rng.choice(["none", "fake"]),
-                                      legacy=rng.random() < 0.25, allow_odd_paths=False, allow_glob=False, max_files=4)
+                                      legacy=rng.random() < 0.25, allow_odd_paths=False, allow_glob=True, max_files=4)
         # 1..3 patterns per file (statement), keep the first three
         for f in project["files"]:
-            if len(f["patterns"]) > 3:
+            if len(f["patterns"]) > 3 and not f.get("globbed") and not f.get("repeated_entry"):
                 drop = set(range(3, len(f["patterns"])))
                 f["patterns"] = f["patterns"][:3]
                 f["lines"] = [ln for ln in f["lines"]
@@ -110,11 +115,15 @@ class FaultPos:
         perms = [tuple(range(len(entries)))] + [p for p in perms if p != tuple(range(len(entries)))]
         perms = perms[:6]
 
-        def world_for(order_idx):
+        def world_for(order_idx, cover_path=None):
             perm = perms[order_idx % len(perms)]
             p2 = dict(project)
             cfg = dict(project["cfg"])
             cfg["file_patterns"] = [entries[i] for i in perm]
+            if cover_path is not None:
+                import fnmatch
+                cfg["file_patterns"] = [[k, (list(v) + ["{version}"]) if (k == cover_path or fnmatch.fnmatch(cover_path, k)) else v]
+                                        for k, v in cfg["file_patterns"]]
             p2["cfg"] = cfg
             w = simworld.World(p2)
             w.materialise(state, text)
@@ -138,7 +147,7 @@ class FaultPos:
             plans = case["faults"]
         for plan in plans:
             fault = plan["fault"]
-            w = world_for(plan["order"])
+            w = world_for(plan["order"], fault["path"] if fault["kind"] == "break+cover" else None)
             extra = apply_fault(w, project, fault)
             if extra is None:
                 ctx.count("fault_not_applicable")
@@ -174,7 +183,7 @@ class FaultPos:
             res = invoker.invoke(w.dir, ["update"] + argv, clock, shim, fakevcs.HookShim({}))
             ctx.invocations += 1
             ctx.event(fault, plan["order"], plan["mode"], res.exit_code, invoker.digest_snapshot(res.after))
-            ctx.fault("fs_" + fault["kind"] if fault["kind"] in ("break", "remove") else "version_" + fault["kind"])
+            ctx.fault("fs_" + fault["kind"] if fault["kind"] in ("break", "remove", "break+cover") else "version_" + fault["kind"])
             ctx.nontriv((runner.short_hash(project["cfg"]["file_patterns"]), runner.short_hash(fault), plan["order"], plan["mode"]))
             ctx.transition((fault["kind"], plan["mode"], res.exit_code, project["vcs"] is not None))
             detail = "fault %s order %d mode %s argv %s -> exit %s (%s)" % (
